@@ -71,7 +71,7 @@ def generate(tier, work):
     return trees[0], path_scripts, hist_scripts, len(model_paths), len(exported)
 
 
-def execute(tree, scripts, work, name):
+def execute(tree, scripts, work, name, http=False):
     tp = work / "tree.json"
     tp.write_text(json.dumps(tree))
     sp = work / f"{name}.scripts.ndjson"
@@ -79,7 +79,7 @@ def execute(tree, scripts, work, name):
         for s in scripts:
             f.write(json.dumps(s) + "\n")
     tr = work / f"{name}.trace.ndjson"
-    p = tpv(["webide-run", "--tree", tp, "--scripts", sp, "--out", tr, "--work", work / "sb", "--jobs", 8], timeout=3000, check=False)
+    p = tpv(["webide-run", "--tree", tp, "--scripts", sp, "--out", tr, "--work", work / "sb", "--jobs", 8] + (["--http"] if http else []), timeout=3000, check=False)
     if p.returncode != 0:
         raise ToolError(f"webide-run failed ({p.returncode}):\n{(p.stdout or '')[-3000:]}")
     return tr
@@ -137,8 +137,8 @@ def validate_chunks(runs, work, size=1500):
     return verdict, tl
 
 
-def check_paths(rep, tree, scripts, work):
-    tr = execute(tree, scripts, work, "paths")
+def check_paths(rep, tree, scripts, work, http=False):
+    tr = execute(tree, scripts, work, "paths-http" if http else "paths", http)
     rows = read_ndjson(tr)
     runs = split_runs(rows)
     if len(runs) != len(scripts):
@@ -156,9 +156,9 @@ def check_paths(rep, tree, scripts, work):
             per_key[key] = per_key.get(key, 0) + 1
             if per_key[key] > 4:
                 continue
-            rep.violation(key, {"kind": "path", "script": scripts[ri], "tree": tree, "concrete_path": runs[ri][0].get("str"),
+            rep.violation(key, {"kind": "path", "http": http, "script": scripts[ri], "tree": tree, "concrete_path": runs[ri][0].get("str"),
                                 "rejected_event": ev, "why": b["why"], "model_landing_zone": b["land"], "model_cause": b["cause"]},
-                          f"{b['op']}({runs[ri][0].get('str')!r}) as {b['sk']}{'' if b['we'] else ' (write-disabled)'} -> "
+                          f"{'over HTTP: ' if http else ''}{b['op']}({runs[ri][0].get('str')!r}) as {b['sk']}{'' if b['we'] else ' (write-disabled)'} -> "
                           f"{ev.get('kind')}: {', '.join(b['why'])}; changed {json.dumps(ev.get('changed'))} leaked {json.dumps(ev.get('leaked'))}")
     return rows, runs, verdict, tl, per_key
 
@@ -212,8 +212,8 @@ def hist_key(run, stuck):
     return "history:unexplained", e
 
 
-def check_hist(rep, tree, scripts, work):
-    tr = execute(tree, scripts, work, "hist")
+def check_hist(rep, tree, scripts, work, http=False):
+    tr = execute(tree, scripts, work, "hist-http" if http else "hist", http)
     runs = read_ndjson(tr)
     if len(runs) != len(scripts):
         raise ToolError(f"{len(scripts)} history scripts but {len(runs)} recorded runs")
@@ -229,8 +229,8 @@ def check_hist(rep, tree, scripts, work):
             inconclusive += 1        # a torn (partial) read was recorded: what other readers saw of it is not observable
             continue
         key, e = hist_key(run, stuck)
-        rep.violation(key, {"kind": "hist", "script": scripts[k], "tree": tree, "run": run, "stuck_at_event": stuck, "event": e},
-                      f"{run['kind']} history of {len(run['roles'])} sessions: no ordering of the model's steps explains event #{stuck} {json.dumps(e)}")
+        rep.violation(key, {"kind": "hist", "http": http, "script": scripts[k], "tree": tree, "run": run, "stuck_at_event": stuck, "event": e},
+                      f"{'over HTTP: ' if http else ''}{run['kind']} history of {len(run['roles'])} sessions: no ordering of the model's steps explains event #{stuck} {json.dumps(e)}")
     return runs, rejected, states, inconclusive
 
 
@@ -244,10 +244,10 @@ def run(prop, tier, replay):
     if replay:
         tree = ro["tree"]
         if ro["kind"] == "hist":
-            runs, rejected, states, inconclusive = check_hist(rep, tree, [ro["script"]], work)
+            runs, rejected, states, inconclusive = check_hist(rep, tree, [ro["script"]], work, ro.get("http", False))
             return rep.finish({"states": states or 1, "transitions": 1, "traces_validated_against_impl": len(runs) - len(rejected),
                                "evaluations": 1, "distinct_nontrivial": 1, "rule": "replay of one stored script", "samples": [ro["script"]]})
-        rows, runs, verdict, tl, per_key = check_paths(rep, tree, [ro["script"]], work)
+        rows, runs, verdict, tl, per_key = check_paths(rep, tree, [ro["script"]], work, ro.get("http", False))
         return rep.finish({"states": tl["distinct"] or 1, "transitions": tl["generated"] or 1, "traces_validated_against_impl": len(runs),
                            "evaluations": verdict["calls"], "distinct_nontrivial": 1, "rule": "replay of one stored script",
                            "samples": [ro["script"]], "rejected_by_key": per_key})
@@ -255,6 +255,13 @@ def run(prop, tier, replay):
     tree, path_scripts, hist_scripts, n_model_paths, n_model_seq = generate(tier, work)
     rows, pruns, verdict, tl, per_key = check_paths(rep, tree, path_scripts, work)
     hruns, rejected, hstates, inconclusive = check_hist(rep, tree, hist_scripts, work)
+    # the same scripts through the real web server (web.rs routes: session header, query / JSON decoding, status
+    # codes): the listing script, every 4th path shape of the model, every 8th random one, every 3rd history
+    hp = [path_scripts[0]] + path_scripts[1:1 + n_model_paths][::4] + path_scripts[1 + n_model_paths:][::8]
+    hh = hist_scripts[::3]
+    hrows, hpruns, hverdict, htl, hper_key = check_paths(rep, tree, hp, work, http=True)
+    hhruns, hrejected, hhstates, hinconclusive = check_hist(rep, tree, hh, work, http=True)
+    http_calls = sum(1 for r in hrows if r["a"] in ("Op", "List", "Panic")) + sum(1 for r in hhruns for e in r["ev"] if e["a"] == "E")
     calls = [r for r in rows if r["a"] in ("Op", "List", "Panic")]
     ops = {}
     for r in calls:
@@ -283,7 +290,9 @@ def run(prop, tier, replay):
         "history_runs_concurrent_with_overlapping_calls": overlapping,
         "history_calls": hcalls, "history_conflicts": conflicts, "history_successful_writes": okw,
         "history_rejected": len(rejected), "history_inconclusive_torn_read": inconclusive,
-        "evaluations": len(calls) + hcalls,
+        "http_path_runs": len(hpruns), "http_history_runs": len(hhruns), "http_calls": http_calls,
+        "http_rejected_path_events": len(hverdict["bad"]), "http_history_rejected": len(hrejected), "http_history_inconclusive_torn_read": hinconclusive,
+        "evaluations": len(calls) + hcalls + http_calls,
         "distinct_nontrivial": len({digest(r[0]["path"]) for r in pruns if len(r) > 1})
                                + len({digest(r["ev"]) for r in hruns if sum(1 for e in r["ev"] if e["a"] == "E") >= 3}),
         "rule": "one evaluation = one API call on the real WebIdeState (path calls: fresh sentinel tree + fresh state, full snapshot diff; "
@@ -304,7 +313,10 @@ def run(prop, tier, replay):
         "a version taken from a conflict answer or guessed is not generated; delete / rename / create of the written file are not interleaved",
         "concurrent runs are free-running threads (OS schedule, seeded delays), not exhaustive on the code (the model is); a rejected run in "
         "which a torn (partial) read was recorded counts as inconclusive",
-        "failures outside the protocol (I/O errors, kind 'other') are accepted anywhere provided nothing changed"])
+        "failures outside the protocol (I/O errors, kind 'other') are accepted anywhere provided nothing changed",
+        "the HTTP pass drives trust_runtime::web::start_web_server (auth mode 'local') on a loopback port with HTTP/1.0 requests, one "
+        "connection each; the server handles requests one at a time, so concurrent histories are serialised by it; the routes always "
+        "pass write_enabled = true, so write-disabled steps are executed (and logged) as write-enabled there"])
 
 
 def overlaps(run):
